@@ -33,8 +33,11 @@ def check_case(case, info=None):
     tc = case['tree']
     system = tc['system']
     fmt = case['format']
-    mod = en if system == 'en' else ja
-    set_global_language_to(system)
+    # the language active while READING decides which grammar labels the nodes; it may differ from the
+    # feature system of the file's categories (an English-style file read in a Japanese session and vice versa)
+    read_lang = case.get('read_lang', system)
+    mod = en if read_lang == 'en' else ja
+    set_global_language_to(read_lang)
     try:
         tree = gen_tree.tree_of_case(tc)
         text = to_string(copy.deepcopy([[ScoredTree(tree, -1.0)]]), format=fmt)
@@ -101,7 +104,10 @@ def build_case(data):
     excl = PTB_EXCLUDE if fmt == 'ptb' else XML_EXCLUDE
     tc = gen_tree.t_tree_case(t, system, licensed=t.chance(200), max_leaves=6, tok_exclude=excl,
                               ja_tokens=(fmt == 'jigg_xml'))
-    return {'kind': 'reader', 'tree': tc, 'format': fmt}
+    case = {'kind': 'reader', 'tree': tc, 'format': fmt}
+    if system == 'en' and fmt in ('auto', 'xml', 'ptb') and t.chance(70):
+        case['read_lang'] = 'ja'
+    return case
 
 
 def shard(ctx, shard_index, nshards):
@@ -110,13 +116,14 @@ def shard(ctx, shard_index, nshards):
 
     def factory():
         @seed(runner.hseed(ctx, 1212))
-        @runner.hsettings(ctx.scale(500, 3000))
+        @runner.hsettings(ctx.scale(500, 10000))
         @given(tapes(900))
         def test(data):
             case = build_case(data)
             info = {}
             fails = check_case(case, info)
-            cls = f"reader/{case['format']}/{case['tree']['system']}/" + \
+            cls = f"reader/{case['format']}/{case['tree']['system']}" + \
+                (f"-read-as-{case['read_lang']}/" if case.get('read_lang') else '/') + \
                 ('licensed' if case['tree']['licensed'] else 'arbitrary') + \
                 ('/derivable-nodes' if info.get('derivable') else '') + ('/underivable-nodes' if info.get('underivable') else '')
             ctx.case(case, info.get('derivable', 0) >= 1, cls=cls,
